@@ -959,6 +959,11 @@ def run(ctx: Ctx):
                 ctx.violation(f"correspondence lemma {which}: Gallina model and implementation differ (status / objective / path / distances)",
                               rep, no_input=True)
 
+    # ---- round-2 input-shape families for all ten C11 functions (harness/props/C11_shapes.py)
+    from harness.props import C11_shapes
+
+    C11_shapes.run_shapes(ctx)
+
     # ---- part B (dijkstra, astar, astar_grid), built by another agent
     try:
         from harness.props import C11_bestfirst  # type: ignore
@@ -972,6 +977,10 @@ def run(ctx: Ctx):
 
 
 def replay(obj):
+    if obj.get("part") == "shapes":
+        from harness.props import C11_shapes
+
+        return C11_shapes.replay(obj)
     k = obj.get("kind") if obj.get("part") != "bestfirst" else "part-B"
     if k in ("bf", "fw"):
         n, edges = obj["n"], [tuple(e) for e in obj["edges"]]
